@@ -492,7 +492,8 @@ func (bs *blockState) makeSlice(x *ssa.MakeSlice) {
 		k := elemKey(elemT, j)
 		h := e.heapKey(bs.st, k, "(Array Int (Array Int "+so+"))")
 		nh := e.fresh("M."+typeKey(elemT), "(Array Int (Array Int "+so+"))")
-		e.def(eq(nh, app("store", h, r, zeroOfSort("(Array Int "+so+")"))))
+		zero := zeroOfSort(so)
+		e.def(eq(nh, app("store", h, r, "((as const (Array Int "+so+")) "+zero+")")))
 		bs.st.m[k] = nh
 	}
 	e.regs[x] = Val{x.Type(), []string{r, "0", ln, cp}}
@@ -511,6 +512,12 @@ func (bs *blockState) indexAddr(x *ssa.IndexAddr) {
 		e.addrs[x] = lvalue{kind: "elem", obj: b.C[0], idx: idx, elemT: u.Elem(), typ: u.Elem()}
 	default:
 		if at, ok := isArrayPtr(t); ok {
+			if blv, isCell := e.addrs[x.X]; isCell && blv.kind == "cell" {
+				// element of a local array variable: the cell component is an SMT array
+				bs.assertG(fmt.Sprintf("index.%d", e.ordinal("index")), "bounds", and(app("<=", "0", i), app("<", i, fmt.Sprint(at.Len()))), "array index in range", x)
+				e.addrs[x] = lvalue{kind: "cellidx", alloc: blv.alloc, lo: blv.lo, hi: blv.hi, idx: i, typ: at.Elem(), elemT: at.Elem()}
+				return
+			}
 			b := bs.val(x.X)
 			bs.assertG(fmt.Sprintf("index.%d", e.ordinal("index")), "bounds", and(app("<=", "0", i), app("<", i, fmt.Sprint(at.Len()))), "array index in range", x)
 			e.addrs[x] = lvalue{kind: "elem", obj: b.C[0], idx: i, elemT: at.Elem(), typ: at.Elem()}
